@@ -9,6 +9,7 @@ import (
 	"fmt"
 	"go/token"
 	"go/types"
+	"sort"
 	"strings"
 
 	"golang.org/x/tools/go/ssa"
@@ -193,6 +194,7 @@ func checkC16(c *Ctx, r *Report) {
 	}
 
 	wildcardRule(c, r)
+	optionPurityRule(c, r)
 	// R16c
 	r.Rule("R16c", "the dictionary loop asks for the options of (k, -1) with the key it stores under; the index loop asks for (\"\", i) with the index it stores at; the array dispatcher asks for (\"*\", -1)", 3)
 	dict := c.Func("", "mergeConfigDict")
@@ -316,4 +318,149 @@ func deriveOptsFunc(c *Ctx) *ssa.Function {
 		undecidedf("ANCHOR-MISSING: expected exactly one function deriving child options from the handling tree, found %d", len(found))
 	}
 	return found[0]
+}
+
+// optionPurityRule (R16e): an Option value is applied many times (it may be kept in a variable and handed
+// to several Merge/Unpack calls, also concurrently). Applying it must depend on the option's construction
+// arguments and on the options it is applied to only: the function literals behind Option values (and the
+// literals they call) never write a captured variable, a field or element of one, or a captured map.
+// A memo kept in the closure makes one application see what an earlier one left behind.
+func optionPurityRule(c *Ctx, r *Report) {
+	r.Rule("R16e", "applying an Option writes no captured state: function literals of type Option (and the literals they call) do not assign captured variables, their fields or elements, or captured maps", 6)
+	optT := c.Named("", "Option")
+	root := c.SSA[""]
+	// Option-typed literals
+	var lits []*ssa.Function
+	for _, fn := range c.SrcFuncs() {
+		if fn.Pkg != root || fn.Parent() == nil {
+			continue
+		}
+		isOpt := false
+		// the literal is converted/assigned to Option somewhere in its parent: look at the MakeClosure / function value uses
+		for _, b := range fn.Parent().Blocks {
+			for _, in := range b.Instrs {
+				var fv ssa.Value
+				switch x := in.(type) {
+				case *ssa.MakeClosure:
+					if x.Fn == ssa.Value(fn) {
+						fv = x
+					}
+				case *ssa.ChangeType:
+					if x.X == ssa.Value(fn) {
+						fv = x
+					}
+				}
+				if fv == nil {
+					continue
+				}
+				if types.Identical(fv.Type(), optT) {
+					isOpt = true
+				}
+				if refs := fv.Referrers(); refs != nil {
+					for _, ref := range *refs {
+						if ct, ok := ref.(*ssa.ChangeType); ok && types.Identical(ct.Type(), optT) {
+							isOpt = true
+						}
+						if ret, ok := ref.(*ssa.Return); ok {
+							_ = ret
+							if res := fn.Parent().Signature.Results(); res.Len() == 1 && types.Identical(res.At(0).Type(), optT) {
+								isOpt = true
+							}
+						}
+					}
+				}
+			}
+		}
+		// a literal with the Option signature returned from a function whose result is Option
+		if !isOpt && fn.Signature.Params().Len() == 1 && fn.Signature.Results().Len() == 0 {
+			if res := fn.Parent().Signature.Results(); res.Len() == 1 && types.Identical(res.At(0).Type(), optT) && types.Identical(fn.Signature, optT.Underlying()) {
+				isOpt = true
+			}
+		}
+		if isOpt {
+			lits = append(lits, fn)
+		}
+	}
+	// plus the literals they call (closures bound in the constructor)
+	seen := map[*ssa.Function]bool{}
+	var work []*ssa.Function
+	for _, f := range lits {
+		seen[f] = true
+		work = append(work, f)
+	}
+	for len(work) > 0 {
+		f := work[len(work)-1]
+		work = work[:len(work)-1]
+		for _, ci := range CallsIn(f, false) {
+			for _, g := range c.Callees(ci) {
+				if g.Parent() != nil && g.Pkg == root && !seen[g] {
+					seen[g] = true
+					work = append(work, g)
+				}
+			}
+		}
+	}
+	var all []*ssa.Function
+	for f := range seen {
+		all = append(all, f)
+	}
+	sort.Slice(all, func(i, j int) bool { return c.FnName(all[i]) < c.FnName(all[j]) })
+	capturedRoot := func(addr ssa.Value) *ssa.FreeVar {
+		for i := 0; i < 8; i++ {
+			switch x := addr.(type) {
+			case *ssa.FreeVar:
+				return x
+			case *ssa.FieldAddr:
+				addr = x.X
+			case *ssa.IndexAddr:
+				addr = x.X
+			default:
+				return nil
+			}
+		}
+		return nil
+	}
+	for _, f := range all {
+		name := c.FnName(f)
+		bad := ""
+		var pos token.Pos
+		Instrs(f, false, func(in ssa.Instruction) {
+			switch x := in.(type) {
+			case *ssa.Store:
+				if fv := capturedRoot(x.Addr); fv != nil {
+					bad, pos = "assigns the captured variable "+fv.Name(), x.Pos()
+				}
+				// the handling tree installed into the options is written by the options that follow in the same list:
+				// it must not be an object the Option value holds on to
+				if nt, fld, ok := FieldOf(x.Addr); ok && nt.Obj().Name() == "options" && fld == "fieldHandlingTree" {
+					for _, s := range Sources(x.Val) {
+						if l, ok := s.(*ssa.UnOp); ok && l.Op == token.MUL {
+							if fv, ok := l.X.(*ssa.FreeVar); ok {
+								bad, pos = "installs the captured handling tree "+fv.Name()+" into the options (later options of the list merge into it)", x.Pos()
+							}
+						}
+						if fv, ok := s.(*ssa.FreeVar); ok {
+							bad, pos = "installs the captured handling tree "+fv.Name()+" into the options (later options of the list merge into it)", x.Pos()
+						}
+					}
+				}
+			case *ssa.MapUpdate:
+				for _, s := range Sources(x.Map) {
+					if l, ok := s.(*ssa.UnOp); ok && l.Op == token.MUL {
+						if fv, ok := l.X.(*ssa.FreeVar); ok {
+							bad, pos = "writes the captured map "+fv.Name(), x.Pos()
+						}
+					}
+					if fv, ok := s.(*ssa.FreeVar); ok {
+						bad, pos = "writes the captured map "+fv.Name(), x.Pos()
+					}
+				}
+			}
+		})
+		if pos == token.NoPos {
+			pos = f.Pos()
+		}
+		r.Check(bad == "", "R16e", name, "no write of captured state", c.Pos(pos), "the option's application writes only through its *options parameter and fresh objects",
+			"applying this Option "+bad+": the Option value keeps state between applications, so a later Merge/Unpack with the same Option value sees what an earlier option list left behind (per-field policies leak to other calls)")
+	}
 }
